@@ -179,8 +179,34 @@ Theorem C08_section_switch_after_any_history : forall rs cs s,
 Proof. exact section_switch_after_any_history. Qed.
 Print Assumptions C08_section_switch_after_any_history.
 
+From Verif Require Builder.BuilderFrame.
+
+(* FRAME CONDITIONS of the Builder machine, for every state and every command (successful or refused): the register size never changes;
+   label/section counters change only by new_label / new_section / a const-pool node / add_func / _new_const; the one-shot emitter state only
+   by its setters and the calls that consume it; the Compiler's function and pool state only by add_func / end_func / _new_const; node list,
+   cursor, detached nodes and section-link cache are untouched by setters, id allocation, refused emits, _new_const and jump annotations *)
+Theorem C08_step_frame : forall b c,
+  let b' := fst (BuilderModel.step b c) in
+  regsize b' = regsize b /\
+  (BuilderFrame.touches_counters c = false -> nlabels b' = nlabels b /\ nsections b' = nsections b) /\
+  (BuilderFrame.touches_oneshot c = false -> p_opts b' = p_opts b /\ p_exsig b' = p_exsig b /\ p_exid b' = p_exid b /\ p_comment b' = p_comment b) /\
+  (BuilderFrame.touches_func c = false -> cur_func b' = cur_func b /\ lpool b' = lpool b /\ gpool b' = gpool b) /\
+  (BuilderFrame.touches_nodes c = false -> active b' = active b /\ cursor b' = cursor b /\ pool b' = pool b /\ links b' = links b /\ dirty b' = dirty b).
+Proof. exact BuilderFrame.step_frame. Qed.
+Print Assumptions C08_step_frame.
+
+Theorem C08_step_frame_tight :
+  let b := fst (BuilderModel.step (fst (BuilderModel.step (init_state 8) (CSetOptions 5))) CNewLabel) in
+  nlabels (fst (BuilderModel.step b CNewLabel)) <> nlabels b /\
+  p_opts (fst (BuilderModel.step b (CEmit 9 op_none op_none op_none op_none op_none op_none))) <> p_opts b /\
+  cur_func (fst (BuilderModel.step b CFunc)) <> cur_func b /\
+  active (fst (BuilderModel.step b (CAlign 0 16))) <> active b /\
+  active (fst (BuilderModel.step b (CBind 7))) = active b /\ snd (BuilderModel.step b (CBind 7)) = kInvalidLabel.
+Proof. exact BuilderFrame.frame_tight. Qed.
+Print Assumptions C08_step_frame_tight.
+
 From Verif Require Import Codec.OffsetModel Labels.LabelsModel Reloc.RelocModel Builder.AsmOrder Builder.BuilderImage Builder.DeltaEffect.
-From Verif Require Builder.AsmOrderAny.
+From Verif Require Builder.AsmOrderAny Builder.AsmOrderEffect Builder.AsmOrderBytes.
 
 (* ORDER IRRELEVANCE of assembling, proved on C03's label/fixup machine (Verif.Labels.LabelsModel: new_fixup, bind_label with its fixup
    walk, resolve_cross_section_fixups, every displacement format of the two backends): two programs whose per-section operation sequences
@@ -320,12 +346,180 @@ Theorem C08_by_effect_any : forall nl ns t1 t2 offs,
   let s1 := LabelsModel.run init ((prelude nl ns ++ expand t1) ++ [OResolve offs]) in
   forall k, Forall2 (fun o1 o2 =>
       o1 = o2 \/
-      exists l b sz ks lo bo, nth_error (labels s1) l = Some (Some (ks, lo)) /\ nth_error (labels s1) b = Some (Some (ks, bo)) /\ size_ok sz = true /\
+      exists l b sz ks lo bo, nth_error (labels s1) l = Some (Some (ks, lo)) /\ nth_error (labels s1) b = Some (Some (ks, bo)) /\ size_ok sz = true /\ delta_fits sz (lo - bo) = true /\
         ((o1 = SDelta l b sz /\ o2 = SRaw (le_split (Z.to_nat sz) (wrap (8 * sz) (lo - bo)))) \/
          (o1 = SRaw (le_split (Z.to_nat sz) (wrap (8 * sz) (lo - bo))) /\ o2 = SDelta l b sz)))
     (proj k (AsmOrderAny.res_from s0 t1)) (proj k (AsmOrderAny.res_from s0 t2)).
 Proof. exact AsmOrderAny.resolved_ops_agree. Qed.
 Print Assumptions C08_by_effect_any.
+
+(* SAME IMAGE BY EFFECT, as one equation.  [eff L] replaces a delta by the bytes of the label difference whenever the table L binds both labels
+   in one section and the difference fits - what the delta contributes once relocation has run (C08_delta_by_effect).  (1) THE RUN AGAINST
+   ITS EFFECT PROGRAM, for ANY program and any table of the right length: length, binds and items of every section agree, except that an
+   expression-entry site holds zero placeholders where the effect program has the bytes. *)
+Theorem C08_run_vs_effect : forall L nl ns t, length L = nl -> tags_ok ns t -> NoDup (bound_labels t) ->
+  forall k, (k < S ns)%nat ->
+    let r := AsmOrderAny.res_from (LabelsModel.run init (prelude nl ns)) t in
+    AsmOrderEffect.srelE L (lfold nl k (proj k r)) (lfold nl k (map (AsmOrderEffect.eff L) (proj k r))).
+Proof. exact AsmOrderEffect.effect_fold_rel. Qed.
+Print Assumptions C08_run_vs_effect.
+
+(* (2) for two interleavings with the same per-section sequences the effect programs under the common final label table are EQUAL section by
+   section, and the bytes each run really holds are the rendering of items that match the items of that ONE effect program up to zero
+   placeholders at expression-entry sites *)
+Theorem C08_effect_image_any : forall nl ns t1 t2 offs,
+  (forall k, proj k t1 = proj k t2) -> tags_ok ns t1 -> tags_ok ns t2 -> NoDup (bound_labels t1) ->
+  let s0 := LabelsModel.run init (prelude nl ns) in
+  AsmOrderAny.no_misfit s0 t1 -> AsmOrderAny.no_misfit s0 t2 ->
+  nowrap nl ns (AsmOrderAny.res_from s0 t1) offs -> nowrap nl ns (AsmOrderAny.res_from s0 t2) offs ->
+  let s1 := LabelsModel.run init ((prelude nl ns ++ expand t1) ++ [OResolve offs]) in
+  let s2 := LabelsModel.run init ((prelude nl ns ++ expand t2) ++ [OResolve offs]) in
+  let L := labels s1 in
+  (forall k, map (AsmOrderEffect.eff L) (proj k (AsmOrderAny.res_from s0 t1)) = map (AsmOrderEffect.eff L) (proj k (AsmOrderAny.res_from s0 t2))) /\
+  forall k, (k < S ns)%nat ->
+    let E := l_items (lfold nl k (map (AsmOrderEffect.eff L) (proj k (AsmOrderAny.res_from s0 t1)))) in
+    (exists i1, sec_image (refs s1) (s_items (nsec s1 k)) = gimage L offs i1 /\ Forall2 (AsmOrderEffect.site_rel L) i1 E) /\
+    (exists i2, sec_image (refs s2) (s_items (nsec s2 k)) = gimage L offs i2 /\ Forall2 (AsmOrderEffect.site_rel L) i2 E).
+Proof. exact AsmOrderEffect.effect_image_any. Qed.
+Print Assumptions C08_effect_image_any.
+
+Theorem C08_effect_image_example :
+  let s0 := LabelsModel.run init (prelude 2 1) in
+  let L := labels (LabelsModel.run init ((prelude 2 1 ++ expand AsmOrderAny.ex_after) ++ [OResolve [0; 4096]])) in
+  map (AsmOrderEffect.eff L) (proj 0 (AsmOrderAny.res_from s0 AsmOrderAny.ex_after)) = [SRaw [3]] /\
+  map (AsmOrderEffect.eff L) (proj 0 (AsmOrderAny.res_from s0 AsmOrderAny.ex_before)) = [SRaw [3]] /\
+  proj 0 (AsmOrderAny.res_from s0 AsmOrderAny.ex_before) = [SDelta 1 0 1] /\
+  gimage L [0; 4096] (l_items (lfold 2 0 (map (AsmOrderEffect.eff L) (proj 0 (AsmOrderAny.res_from s0 AsmOrderAny.ex_before))))) = [3] /\
+  AsmOrderEffect.site_rel L (GRaw (zeros 1)) (GRaw (AsmOrderAny.dbytes 1 (3 - 0))).
+Proof. exact AsmOrderEffect.effect_image_example. Qed.
+Print Assumptions C08_effect_image_example.
+
+(* the relocation entries of ABSOLUTE references (embed_label, x86-32 [label]) are order independent for every program; the expression
+   entries are the path-dependent part (one per delta that survives resolution) *)
+Theorem C08_abs_entries_any : forall nl ns t1 t2 offs,
+  (forall k, proj k t1 = proj k t2) -> tags_ok ns t1 -> tags_ok ns t2 -> NoDup (bound_labels t1) ->
+  let s0 := LabelsModel.run init (prelude nl ns) in
+  AsmOrderAny.no_misfit s0 t1 -> AsmOrderAny.no_misfit s0 t2 ->
+  nowrap nl ns (AsmOrderAny.res_from s0 t1) offs -> nowrap nl ns (AsmOrderAny.res_from s0 t2) offs ->
+  Permutation (filter AsmOrderEffect.is_abs_b (relocs (LabelsModel.run init ((prelude nl ns ++ expand t1) ++ [OResolve offs]))))
+              (filter AsmOrderEffect.is_abs_b (relocs (LabelsModel.run init ((prelude nl ns ++ expand t2) ++ [OResolve offs])))).
+Proof. exact AsmOrderEffect.abs_entries_any. Qed.
+Print Assumptions C08_abs_entries_any.
+
+(* one hypothesis discharged: "no address wraps" for the second interleaving follows from the first *)
+Theorem C08_nowrap_transfers : forall nl ns t1 t2 offs,
+  (forall k, proj k t1 = proj k t2) -> tags_ok ns t1 -> tags_ok ns t2 -> NoDup (bound_labels t1) ->
+  let s0 := LabelsModel.run init (prelude nl ns) in
+  AsmOrderAny.no_misfit s0 t1 -> AsmOrderAny.no_misfit s0 t2 ->
+  nowrap nl ns (AsmOrderAny.res_from s0 t1) offs -> nowrap nl ns (AsmOrderAny.res_from s0 t2) offs.
+Proof. exact AsmOrderEffect.nowrap_transfers. Qed.
+Print Assumptions C08_nowrap_transfers.
+
+(* HEADLINE for arbitrary label deltas, hypotheses stated once wherever possible ("no delta refused for its range" stays per run: it is a
+   property of the run - C08_no_misfit_necessary has it true for one order and false for the other): same label table, same unresolved
+   count, same entries of absolute references, same section sizes, ONE effect program per section, and each run's bytes = the effect
+   program's items up to zero placeholders at expression-entry sites *)
+Theorem C08_same_image_by_effect : forall nl ns t1 t2 offs,
+  (forall k, proj k t1 = proj k t2) -> tags_ok ns t1 -> tags_ok ns t2 -> NoDup (bound_labels t1) ->
+  let s0 := LabelsModel.run init (prelude nl ns) in
+  AsmOrderAny.no_misfit s0 t1 -> AsmOrderAny.no_misfit s0 t2 -> nowrap nl ns (AsmOrderAny.res_from s0 t1) offs ->
+  let s1 := LabelsModel.run init ((prelude nl ns ++ expand t1) ++ [OResolve offs]) in
+  let s2 := LabelsModel.run init ((prelude nl ns ++ expand t2) ++ [OResolve offs]) in
+  let L := labels s1 in
+  labels s1 = labels s2 /\ unresolved s1 = unresolved s2 /\
+  Permutation (filter AsmOrderEffect.is_abs_b (relocs s1)) (filter AsmOrderEffect.is_abs_b (relocs s2)) /\
+  (forall k, map (AsmOrderEffect.eff L) (proj k (AsmOrderAny.res_from s0 t1)) = map (AsmOrderEffect.eff L) (proj k (AsmOrderAny.res_from s0 t2))) /\
+  forall k, (k < S ns)%nat ->
+    s_len (nsec s1 k) = s_len (nsec s2 k) /\
+    let E := l_items (lfold nl k (map (AsmOrderEffect.eff L) (proj k (AsmOrderAny.res_from s0 t1)))) in
+    (exists i1, sec_image (refs s1) (s_items (nsec s1 k)) = gimage L offs i1 /\ Forall2 (AsmOrderEffect.site_rel L) i1 E) /\
+    (exists i2, sec_image (refs s2) (s_items (nsec s2 k)) = gimage L offs i2 /\ Forall2 (AsmOrderEffect.site_rel L) i2 E).
+Proof. exact AsmOrderEffect.effect_image_any'. Qed.
+Print Assumptions C08_same_image_by_effect.
+
+(* THE RELOCATED BYTES.  [gbytes] renders a section's items byte for byte (gap = n fillers, reference = its resolved word); [apply_sites]
+   patches them at the section's own expression entries that are resolvable inside one section.  (1) for ANY program, any table of the right
+   length and any layout: the patched bytes of the run are the bytes of its effect program (invariant [srelB]: also lengths and bounds) *)
+Theorem C08_bytes_vs_effect : forall L offs nl ns t, length L = nl -> tags_ok ns t -> NoDup (bound_labels t) ->
+  forall k, (k < S ns)%nat ->
+    let r := AsmOrderAny.res_from (LabelsModel.run init (prelude nl ns)) t in
+    AsmOrderBytes.srelB L offs (lfold nl k (proj k r)) (lfold nl k (map (AsmOrderEffect.eff L) (proj k r))).
+Proof. exact AsmOrderBytes.bytes_vs_effect. Qed.
+Print Assumptions C08_bytes_vs_effect.
+
+(* (2) SAME IMAGE AFTER RELOCATION, an equation on byte lists: for two interleavings with the same per-section sequences the patched bytes
+   of every section are EQUAL (and equal to the bytes of the one effect program), under the common final label table, any layout *)
+Theorem C08_patched_bytes_equal : forall nl ns t1 t2 offs,
+  (forall k, proj k t1 = proj k t2) -> tags_ok ns t1 -> tags_ok ns t2 -> NoDup (bound_labels t1) ->
+  let s0 := LabelsModel.run init (prelude nl ns) in
+  AsmOrderAny.no_misfit s0 t1 -> AsmOrderAny.no_misfit s0 t2 -> nowrap nl ns (AsmOrderAny.res_from s0 t1) offs ->
+  let L := labels (LabelsModel.run init ((prelude nl ns ++ expand t1) ++ [OResolve offs])) in
+  forall k, (k < S ns)%nat ->
+    let A1 := lfold nl k (proj k (AsmOrderAny.res_from s0 t1)) in let A2 := lfold nl k (proj k (AsmOrderAny.res_from s0 t2)) in
+    AsmOrderBytes.apply_sites L (l_rels A1) (AsmOrderBytes.gbytes L offs (l_items A1)) = AsmOrderBytes.apply_sites L (l_rels A2) (AsmOrderBytes.gbytes L offs (l_items A2)) /\
+    AsmOrderBytes.apply_sites L (l_rels A1) (AsmOrderBytes.gbytes L offs (l_items A1))
+    = AsmOrderBytes.gbytes L offs (l_items (lfold nl k (map (AsmOrderEffect.eff L) (proj k (AsmOrderAny.res_from s0 t1))))).
+Proof. exact AsmOrderBytes.patched_bytes_equal. Qed.
+Print Assumptions C08_patched_bytes_equal.
+
+(* (2b) and the entries that are NOT patched inside a section (absolute references, deltas across sections or with an unbound label) are the
+   same list in both orders: after the intra-section patches the two runs hold equal bytes AND equal remaining entries *)
+Theorem C08_unpatched_entries_equal : forall nl ns t1 t2 offs,
+  (forall k, proj k t1 = proj k t2) -> tags_ok ns t1 -> tags_ok ns t2 -> NoDup (bound_labels t1) ->
+  let s0 := LabelsModel.run init (prelude nl ns) in
+  AsmOrderAny.no_misfit s0 t1 -> AsmOrderAny.no_misfit s0 t2 -> nowrap nl ns (AsmOrderAny.res_from s0 t1) offs ->
+  let L := labels (LabelsModel.run init ((prelude nl ns ++ expand t1) ++ [OResolve offs])) in
+  forall k, (k < S ns)%nat ->
+    filter (AsmOrderBytes.inertb L) (l_rels (lfold nl k (proj k (AsmOrderAny.res_from s0 t1))))
+    = filter (AsmOrderBytes.inertb L) (l_rels (lfold nl k (proj k (AsmOrderAny.res_from s0 t2)))).
+Proof. exact AsmOrderBytes.unpatched_entries_equal. Qed.
+Print Assumptions C08_unpatched_entries_equal.
+
+(* (2c) the folds' items and entries ARE what the machine holds, for ANY program after layout and cross-section resolution: every section's
+   item list (read through the references' immutable logs) is the item list of the fold of the resolved form, the relocation entries are
+   its entry ghosts up to creation order - so (2) is an equation about the machine's own sections: *)
+Theorem C08_machine_items_any : forall nl ns t offs, tags_ok ns t -> NoDup (bound_labels t) ->
+  let r := AsmOrderAny.res_from (LabelsModel.run init (prelude nl ns)) t in
+  let s := LabelsModel.run init ((prelude nl ns ++ expand t) ++ [OResolve offs]) in
+  (forall k, (k < S ns)%nat -> map (gi (refs s)) (s_items (nsec s k)) = l_items (lfold nl k (proj k r))) /\
+  Permutation (map rghost_of (relocs s)) (allrels nl ns r).
+Proof. exact AsmOrderBytes.machine_items_any. Qed.
+Print Assumptions C08_machine_items_any.
+
+Theorem C08_machine_patched_bytes_equal : forall nl ns t1 t2 offs,
+  (forall k, proj k t1 = proj k t2) -> tags_ok ns t1 -> tags_ok ns t2 -> NoDup (bound_labels t1) ->
+  let s0 := LabelsModel.run init (prelude nl ns) in
+  AsmOrderAny.no_misfit s0 t1 -> AsmOrderAny.no_misfit s0 t2 -> nowrap nl ns (AsmOrderAny.res_from s0 t1) offs ->
+  let s1 := LabelsModel.run init ((prelude nl ns ++ expand t1) ++ [OResolve offs]) in
+  let s2 := LabelsModel.run init ((prelude nl ns ++ expand t2) ++ [OResolve offs]) in
+  let L := labels s1 in
+  forall k, (k < S ns)%nat ->
+    AsmOrderBytes.apply_sites L (l_rels (lfold nl k (proj k (AsmOrderAny.res_from s0 t1)))) (AsmOrderBytes.gbytes L offs (map (gi (refs s1)) (s_items (nsec s1 k)))) =
+    AsmOrderBytes.apply_sites L (l_rels (lfold nl k (proj k (AsmOrderAny.res_from s0 t2)))) (AsmOrderBytes.gbytes L offs (map (gi (refs s2)) (s_items (nsec s2 k)))).
+Proof. exact AsmOrderBytes.machine_patched_bytes_equal. Qed.
+Print Assumptions C08_machine_patched_bytes_equal.
+
+(* (3) a site's patch IS what C04's relocate_entry writes for that entry (any base, any layout; label differences int64) *)
+Theorem C08_site_patch_is_relocation : forall base asize atoff slots (s : state) offs re d,
+  (forall l b, rl_type re = Expr l b -> rl_label re = l) ->
+  (forall l b ks lo bo, rl_type re = Expr l b -> nth_error (labels s) l = Some (Some (ks, lo)) -> nth_error (labels s) b = Some (Some (ks, bo)) ->
+                        - 2 ^ 63 <= lo - bo < 2 ^ 63) ->
+  AsmOrderBytes.site_patch (labels s) (rghost_of re) = Some d ->
+  exists o, relocate_entry base asize atoff slots (entry_of_reloc s offs re) = inl (o, slots) /\ o_rewrite o = None /\ o_slot o = None /\
+            le_split (Z.to_nat (rl_size re)) (o_word o) = d.
+Proof. exact AsmOrderBytes.site_patch_is_relocation. Qed.
+Print Assumptions C08_site_patch_is_relocation.
+
+Theorem C08_patched_bytes_example :
+  let s0 := LabelsModel.run init (prelude 2 1) in
+  let L := labels (LabelsModel.run init ((prelude 2 1 ++ expand AsmOrderAny.ex_after) ++ [OResolve [0; 4096]])) in
+  let A1 := lfold 2 0 (proj 0 (AsmOrderAny.res_from s0 AsmOrderAny.ex_after)) in let A2 := lfold 2 0 (proj 0 (AsmOrderAny.res_from s0 AsmOrderAny.ex_before)) in
+  AsmOrderBytes.gbytes L [0; 4096] (l_items A1) = [3] /\ l_rels A1 = [] /\
+  AsmOrderBytes.gbytes L [0; 4096] (l_items A2) = [0] /\ length (l_rels A2) = 1%nat /\
+  AsmOrderBytes.apply_sites L (l_rels A1) (AsmOrderBytes.gbytes L [0; 4096] (l_items A1)) = [3] /\
+  AsmOrderBytes.apply_sites L (l_rels A2) (AsmOrderBytes.gbytes L [0; 4096] (l_items A2)) = [3].
+Proof. exact AsmOrderBytes.patched_bytes_example. Qed.
+Print Assumptions C08_patched_bytes_example.
 
 (* its hypotheses hold for the pair of programs of C08_delta_side_condition_necessary (which is outside C08_order_irrelevant) *)
 Theorem C08_order_irrelevant_any_example :
@@ -382,6 +576,24 @@ Theorem C08_same_image_any : forall (enc : list ecall -> ecall -> list sop) nl n
                   Forall2 AsmOrderAny.irel2 i1 i2.
 Proof. exact same_image_any. Qed.
 Print Assumptions C08_same_image_any.
+
+(* SAME IMAGE AFTER RELOCATION for the Builder: what it serializes and the calls assembled directly hold, after the intra-section delta
+   patches, EQUAL bytes (byte-accurate rendering) and EQUAL remaining relocation entries in every section - every encoder of the shape above,
+   any label deltas *)
+Theorem C08_same_patched_bytes : forall (enc : list ecall -> ecall -> list sop) nl ns offs rs cs,
+  Forall (fun c => is_emitter_call c = true) cs -> all_ok (init_state rs) cs = true ->
+  let direct := program enc (trace cs) in
+  let serialized := program enc (trace (replay (BuilderModel.run (init_state rs) cs))) in
+  secs_valid ns (trace cs) -> NoDup (bound_labels direct) ->
+  let s0 := LabelsModel.run init (prelude nl ns) in
+  AsmOrderAny.no_misfit s0 direct -> AsmOrderAny.no_misfit s0 serialized -> nowrap nl ns (AsmOrderAny.res_from s0 direct) offs ->
+  let L := labels (LabelsModel.run init ((prelude nl ns ++ expand direct) ++ [OResolve offs])) in
+  forall k, (k < S ns)%nat ->
+    let A1 := lfold nl k (proj k (AsmOrderAny.res_from s0 direct)) in let A2 := lfold nl k (proj k (AsmOrderAny.res_from s0 serialized)) in
+    AsmOrderBytes.apply_sites L (l_rels A1) (AsmOrderBytes.gbytes L offs (l_items A1)) = AsmOrderBytes.apply_sites L (l_rels A2) (AsmOrderBytes.gbytes L offs (l_items A2)) /\
+    filter (AsmOrderBytes.inertb L) (l_rels A1) = filter (AsmOrderBytes.inertb L) (l_rels A2).
+Proof. exact same_patched_bytes. Qed.
+Print Assumptions C08_same_patched_bytes.
 
 (* its hypotheses are satisfiable (the two-section example program, an encoder with rel32 label references, offsets 0 and 4096) *)
 Theorem C08_same_image_example :
@@ -549,3 +761,93 @@ Theorem C08_delta_by_effect_example :
   snd (LabelsModel.step (set_labels init [Some (1%nat, 300); Some (1%nat, 40)]) (ODeltaChecked 0 1 1)) = EInvalidDisp.
 Proof. split; [exact DeltaEffect.delta_entry_effect_instance|exact DeltaEffect.delta_entry_out_of_range]. Qed.
 Print Assumptions C08_delta_by_effect_example.
+
+From Verif Require Builder.AsmOrderDecide.
+
+(* the hypotheses of the order theorems are DECIDABLE by computation: boolean checkers, sound for the propositions the theorems ask for *)
+Theorem C08_hypotheses_decidable :
+  (forall t s, AsmOrderDecide.no_misfitb s t = true -> AsmOrderAny.no_misfit s t) /\
+  (forall nl ns t offs, AsmOrderDecide.nowrapb nl ns t offs = true -> nowrap nl ns t offs).
+Proof. split; [exact AsmOrderDecide.no_misfitb_sound|exact AsmOrderDecide.nowrapb_sound]. Qed.
+Print Assumptions C08_hypotheses_decidable.
+
+(* C08_same_patched_bytes APPLIES to the Builder's two-section example program (encoder enc_ex; serialization order differs from call order):
+   every hypothesis discharged by the checkers, conclusion instantiated for both sections *)
+Theorem C08_same_patched_bytes_example : forall k, (k < 2)%nat ->
+  let A1 := lfold 2 k (proj k (AsmOrderAny.res_from (LabelsModel.run init (prelude 2 1)) (program enc_ex (trace example_program)))) in
+  let A2 := lfold 2 k (proj k (AsmOrderAny.res_from (LabelsModel.run init (prelude 2 1)) (program enc_ex (trace (replay (BuilderModel.run (init_state 8) example_program)))))) in
+  AsmOrderBytes.apply_sites (labels (LabelsModel.run init ((prelude 2 1 ++ expand (program enc_ex (trace example_program))) ++ [OResolve [0; 4096]]))) (l_rels A1)
+    (AsmOrderBytes.gbytes (labels (LabelsModel.run init ((prelude 2 1 ++ expand (program enc_ex (trace example_program))) ++ [OResolve [0; 4096]]))) [0; 4096] (l_items A1))
+  = AsmOrderBytes.apply_sites (labels (LabelsModel.run init ((prelude 2 1 ++ expand (program enc_ex (trace example_program))) ++ [OResolve [0; 4096]]))) (l_rels A2)
+    (AsmOrderBytes.gbytes (labels (LabelsModel.run init ((prelude 2 1 ++ expand (program enc_ex (trace example_program))) ++ [OResolve [0; 4096]]))) [0; 4096] (l_items A2)) /\
+  filter (AsmOrderBytes.inertb (labels (LabelsModel.run init ((prelude 2 1 ++ expand (program enc_ex (trace example_program))) ++ [OResolve [0; 4096]])))) (l_rels A1)
+  = filter (AsmOrderBytes.inertb (labels (LabelsModel.run init ((prelude 2 1 ++ expand (program enc_ex (trace example_program))) ++ [OResolve [0; 4096]])))) (l_rels A2).
+Proof. exact AsmOrderDecide.example_same_patched_bytes. Qed.
+Print Assumptions C08_same_patched_bytes_example.
+
+From Verif Require Builder.AsmOrderPerm.
+
+(* the patches of a section's expression entries COMMUTE (sites inside the section, pairwise disjoint: AsmOrderPerm.fold_sites_ok for ANY fold), so
+   the relocated bytes do not depend on the order of the entries *)
+Theorem C08_apply_sites_perm : forall L rels rels', Permutation rels rels' ->
+  forall bs, Forall (AsmOrderBytes.in_bounds L (zlen bs)) rels -> AsmOrderPerm.PW (AsmOrderPerm.disj L) rels ->
+  AsmOrderBytes.apply_sites L rels bs = AsmOrderBytes.apply_sites L rels' bs.
+Proof. exact AsmOrderPerm.apply_sites_perm. Qed.
+Print Assumptions C08_apply_sites_perm.
+
+(* THE MACHINE'S OWN STATE ALONE: for ANY program, patching the bytes of section k of C03's machine (after layout + resolution) at the entries of
+   ITS relocation list that belong to section k - in creation order, which interleaves the sections - gives the bytes of the effect program *)
+Theorem C08_machine_relocated_bytes : forall L offs nl ns t, length L = nl -> tags_ok ns t -> NoDup (bound_labels t) ->
+  let r := AsmOrderAny.res_from (LabelsModel.run init (prelude nl ns)) t in
+  let s := LabelsModel.run init ((prelude nl ns ++ expand t) ++ [OResolve offs]) in
+  forall k, (k < S ns)%nat ->
+    AsmOrderBytes.apply_sites L (filter (fun rg => Nat.eqb (rg_sec rg) k) (map rghost_of (relocs s))) (AsmOrderBytes.gbytes L offs (map (gi (refs s)) (s_items (nsec s k))))
+    = AsmOrderBytes.gbytes L offs (l_items (lfold nl k (map (AsmOrderEffect.eff L) (proj k r)))).
+Proof. exact AsmOrderPerm.machine_relocated_bytes. Qed.
+Print Assumptions C08_machine_relocated_bytes.
+
+(* SAME IMAGE AFTER RELOCATION, in terms of the two machine states only: same label table, and for every section the bytes the machine holds,
+   patched at the machine's own expression entries of that section, are EQUAL *)
+Theorem C08_machine_relocated_bytes_equal : forall nl ns t1 t2 offs,
+  (forall k, proj k t1 = proj k t2) -> tags_ok ns t1 -> tags_ok ns t2 -> NoDup (bound_labels t1) ->
+  let s0 := LabelsModel.run init (prelude nl ns) in
+  AsmOrderAny.no_misfit s0 t1 -> AsmOrderAny.no_misfit s0 t2 -> nowrap nl ns (AsmOrderAny.res_from s0 t1) offs ->
+  let s1 := LabelsModel.run init ((prelude nl ns ++ expand t1) ++ [OResolve offs]) in
+  let s2 := LabelsModel.run init ((prelude nl ns ++ expand t2) ++ [OResolve offs]) in
+  let L := labels s1 in
+  labels s2 = L /\
+  forall k, (k < S ns)%nat ->
+    AsmOrderBytes.apply_sites L (filter (fun rg => Nat.eqb (rg_sec rg) k) (map rghost_of (relocs s1))) (AsmOrderBytes.gbytes L offs (map (gi (refs s1)) (s_items (nsec s1 k)))) =
+    AsmOrderBytes.apply_sites L (filter (fun rg => Nat.eqb (rg_sec rg) k) (map rghost_of (relocs s2))) (AsmOrderBytes.gbytes L offs (map (gi (refs s2)) (s_items (nsec s2 k)))).
+Proof. exact AsmOrderPerm.machine_relocated_bytes_equal. Qed.
+Print Assumptions C08_machine_relocated_bytes_equal.
+
+Theorem C08_machine_relocated_bytes_example :
+  let s1 := LabelsModel.run init ((prelude 2 1 ++ expand AsmOrderAny.ex_after) ++ [OResolve [0; 4096]]) in
+  let s2 := LabelsModel.run init ((prelude 2 1 ++ expand AsmOrderAny.ex_before) ++ [OResolve [0; 4096]]) in
+  AsmOrderBytes.gbytes (labels s1) [0; 4096] (map (gi (refs s2)) (s_items (nsec s2 0))) = [0] /\
+  length (filter (fun rg => Nat.eqb (rg_sec rg) 0) (map rghost_of (relocs s2))) = 1%nat /\
+  AsmOrderBytes.apply_sites (labels s1) (filter (fun rg => Nat.eqb (rg_sec rg) 0) (map rghost_of (relocs s1))) (AsmOrderBytes.gbytes (labels s1) [0; 4096] (map (gi (refs s1)) (s_items (nsec s1 0)))) = [3] /\
+  AsmOrderBytes.apply_sites (labels s1) (filter (fun rg => Nat.eqb (rg_sec rg) 0) (map rghost_of (relocs s2))) (AsmOrderBytes.gbytes (labels s1) [0; 4096] (map (gi (refs s2)) (s_items (nsec s2 0)))) = [3].
+Proof. exact AsmOrderPerm.machine_relocated_bytes_example. Qed.
+Print Assumptions C08_machine_relocated_bytes_example.
+
+(* THE PROPERTY, for the model, at full strength: what the Builder serializes and the calls assembled directly - ANY label deltas, every encoder
+   that depends on the call and its same-section history - end, after layout, cross-section resolution and the relocation of the intra-section
+   expression entries, in machine states with the same label table and EQUAL bytes in every section (the remaining entries: C08_same_patched_bytes) *)
+Theorem C08_same_relocated_bytes_machine : forall (enc : list ecall -> ecall -> list sop) nl ns offs rs cs,
+  Forall (fun c => is_emitter_call c = true) cs -> all_ok (init_state rs) cs = true ->
+  let direct := program enc (trace cs) in
+  let serialized := program enc (trace (replay (BuilderModel.run (init_state rs) cs))) in
+  secs_valid ns (trace cs) -> NoDup (bound_labels direct) ->
+  let s0 := LabelsModel.run init (prelude nl ns) in
+  AsmOrderAny.no_misfit s0 direct -> AsmOrderAny.no_misfit s0 serialized -> nowrap nl ns (AsmOrderAny.res_from s0 direct) offs ->
+  let s1 := LabelsModel.run init ((prelude nl ns ++ expand direct) ++ [OResolve offs]) in
+  let s2 := LabelsModel.run init ((prelude nl ns ++ expand serialized) ++ [OResolve offs]) in
+  let L := labels s1 in
+  labels s2 = L /\
+  forall k, (k < S ns)%nat ->
+    AsmOrderBytes.apply_sites L (filter (fun rg => Nat.eqb (rg_sec rg) k) (map rghost_of (relocs s1))) (AsmOrderBytes.gbytes L offs (map (gi (refs s1)) (s_items (nsec s1 k)))) =
+    AsmOrderBytes.apply_sites L (filter (fun rg => Nat.eqb (rg_sec rg) k) (map rghost_of (relocs s2))) (AsmOrderBytes.gbytes L offs (map (gi (refs s2)) (s_items (nsec s2 k)))).
+Proof. exact same_relocated_bytes_machine. Qed.
+Print Assumptions C08_same_relocated_bytes_machine.
